@@ -259,3 +259,4 @@ def check(run):
     r4_emission(run, F)
     r5_determinism(run, F)
     r6_containment(run, F)
+    c05.r8_state_writers(run, F)   # who may write the scoper's state, in_constexpr_of_constant included
